@@ -1,9 +1,31 @@
 Require Import FastZ.
-From Dashu Require Import Base.Prelude Float.RoundSpec Float.Contract Float.Model Conv.ConvSpec Conv.ConvModel.
+From Dashu Require Import Base.Prelude Float.RoundSpec Float.Contract Float.Model Float.RoundOpsModel Conv.ConvSpec Conv.ConvModel
+  Conv.ConvModel2 Conv.ConvTryProofs Conv.ConvFloat2Proofs Conv.ConvToInt.
+From DashuGen Require Import ConvParams2.
+Open Scope Z_scope.
+
+(** instances used by the oracle: the exact digit count / the exact floor of log2 are admissible
+    estimates (the theorems hold for every sound estimate) *)
+Definition to_int_x (B : Z) (m : mode) (p s e : Z) : result iapprox := to_int_asis B (dub_exact B) false m p s e.
+Definition repr_to_int_x (B s e : Z) : iapprox := repr_to_int_asis B (dub_exact B) s e.
+Definition fbig_try_to_prim_x (w B : Z) (sg : bool) (TW : Z) (inf : bool) (s e : Z) : conv Z :=
+  fbig_try_to_prim (lb_exact B) w B sg TW inf s e.
+(** the models at the literals regenerated from the sources on this run *)
+Definition g (l : list Z) (i : nat) : Z := nth i l 0.
+Definition rat_fast_x (P : enc_params) (f32 : bool) (N D : Z) : Z :=
+  let l := if f32 then rat_fast_f32_gen else rat_fast_f64_gen in
+  rat_to_float_fast_gen P (g l 0) (g l 1) (g l 2) (g l 3 - g l 4) N D.
+Definition rat_try_x (P : enc_params) (f32 : bool) (N D : Z) : conv Z :=
+  let l := if f32 then rat_try_f32_gen else rat_try_f64_gen in
+  rat_try_to_float_gen P (g l 0) (g l 1) (MB P + 1) N D.
+
 Extraction "model.ml"
   F32 F64 P32 P64 fmt_of blen dlen normalize cmp_kx round_rat_at spec_round
   ieee_round ieee_rne decode_spec frac_of to_prim_spec float_to_int_spec exact_to_float rat_to_int_spec
   rat_trunc_spec flag_of_error int_round_spec rat_to_fbig_spec
   decode_asis encode_asis ubig_to_float ibig_to_float int_try_to_float float_try_to_int
   ubig_to_prim ibig_to_prim prim_to_ubig prim_to_ibig rat_to_float rat_to_float_fast
-  fbig2_to_float fbig_to_float rat_to_fbig rat_to_fbig_twice.
+  fbig2_to_float fbig_to_float rat_to_fbig rat_to_fbig_twice
+  conv_ok rat_try_to_float float_try_to_rat rat_try_to_prim rat_to_int_asis fbig2_try_to_float float_try_to_fbig
+  ibig_try_to_ubig fbig_try_to_ibig fbig_try_to_ubig fbig_try_to_rbig rat_try_to_ubig rat_try_to_ibig int_to_repr
+  fbig_try_to_prim_x to_int_x repr_to_int_x two_step iapprox_of rat_fast_x rat_try_x.
